@@ -37,7 +37,8 @@ THEOREMS = ['C10_rot_group', 'C10_rot_steps', 'C10_rot_inverse', 'C10_mir_involu
             'C10_synth_rot_equivariant_from_recurrence', 'C10_analysis_rot_equivariant_from_recurrence',
             'C10_primeq_tendency_mirror_equivariant_from_recurrence', 'C10_primeq_mirrored_state_tendency_from_recurrence',
             'C10_sw_explicit_terms_mirror_equivariant_from_recurrence', 'C10_sw_explicit_terms_rot_equivariant_from_recurrence',
-            'C10_from_recurrence_example']
+            'C10_from_recurrence_example',
+            'C10_model_is_source']
 LEVEL = 'proof'
 LEVEL_TEXT = ('machine-checked theorems (Coq), for every field and all sizes: the rotation tables form a group acting on '
               'modal arrays (bijective when c^2+s^2=1), the mirror is an involution commuting with rotations; synthesis and '
